@@ -640,3 +640,72 @@ def c13_fuzz(a):
 
 
 PLANS["C13"]["stages"].append(dict(name="c13-fuzz", kind="py", func="c13_fuzz", tiers=["thorough"]))
+
+
+def c14_taintpipe(a):
+    """memcheck secret-taint of the WHOLE constant-time-test pipeline: the RNG output (xi || rnd) is marked
+    undefined; every tainted branch/address is a report; reports are allowed only at the one public-data
+    site whose outcome cannot vary (bit_unpack's range check inside expand_mask, gamma1 a power of two)."""
+    if not shutil.which("valgrind"):
+        raise Inconclusive("valgrind not available")
+    exe = _build_ct(a, None)
+    t0 = time.time()
+    runs = 3 if a["tier"] == "quick" else 24
+    violations, samples, counters = [], [], {}
+    evals = 0
+
+    def one(st):
+        out = os.path.join(a["work"], f"c14-taintpipe-{st}.json")
+        r = subprocess.run(["valgrind", "--error-exitcode=0", "--error-limit=no", "--num-callers=10", exe, "taintpipe", str(st), str(a["seed"]), str(runs), out],
+                           capture_output=True, text=True, timeout=3600)
+        return st, out, r
+    from concurrent.futures import ThreadPoolExecutor
+    with ThreadPoolExecutor(max_workers=3) as ex:
+        results = list(ex.map(one, (44, 65, 87)))
+    for st, out, r in results:
+        if not os.path.exists(out):
+            raise Inconclusive(f"taintpipe run failed: {r.stderr[-300:]}")
+        td = json.load(open(out))
+        if not td.get("running_on_valgrind"):
+            raise Inconclusive("client requests not honoured")
+        evals += td["runs"]
+        lines = r.stderr.splitlines()
+        allowed, bad = 0, {}
+        for i, line in enumerate(lines):
+            if "Conditional jump or move depends on uninitialised" in line or "Use of uninitialised value" in line:
+                named = []
+                for x in lines[i + 1:i + 11]:
+                    m = re.search(r"(?:at|by) 0x[0-9A-F]+: (.+?) \((.*?)\)", x)
+                    if not m:
+                        break
+                    if m.group(1) != "UnknownInlinedFun":
+                        named.append((m.group(1), m.group(2)))
+                fn0 = named[0][0] if named else "?"
+                fn1 = named[1][0] if len(named) > 1 else "?"
+                names = [n for n, _ in named]
+                # allowed: the report lies inside expand_mask, reached only through bit_unpack's range check
+                # (is_in_range and the core iterator adapters it is made of), however the compiler inlined them
+                ok_site = False
+                if "fips204::hashing::expand_mask" in names:
+                    inner = names[:names.index("fips204::hashing::expand_mask")]
+                    ok_site = "fips204::conversion::bit_unpack" in inner and all(
+                        f == "fips204::conversion::bit_unpack" or "is_in_range" in f or f.startswith(("core::", "<core::", "{closure")) or f.startswith("all<")
+                        for f in inner)
+                if ok_site:
+                    allowed += 1
+                else:
+                    bad.setdefault((fn0, fn1), []).append(" <- ".join(f"{n} ({l})" for n, l in named[:4]))
+        counters[f"taintpipe_ML-DSA-{st}_allowed_public_site_reports"] = allowed
+        counters[f"taintpipe_ML-DSA-{st}_other_reports"] = sum(len(v) for v in bad.values())
+        for (fn0, fn1), v in bad.items():
+            violations.append(dict(signature=f"C14|pipeline-taint|{fn0}|{fn1}",
+                                   detail=f"memcheck (ML-DSA-{st}): branch or address depends on the RNG output inside {fn0} called from {fn1}: {v[0]}",
+                                   replay=dict(kind="c14-taintpipe", set=st, seed=a["seed"])))
+        samples.append(dict(set=st, runs=td["runs"], tainted_input="xi || rnd (64 bytes)", allowed_reports_at="bit_unpack <- expand_mask (range check, constant outcome)",
+                            allowed=allowed, other=sum(len(v) for v in bad.values())))
+    return dict(property_id="C14", stage="c14-taintpipe", build="release+memcheck", tier=a["tier"], seed=a["seed"], rule="", exhaustive=False,
+                evaluations=evals, distinct_nontrivial=evals, samples=samples, counters=counters, violations=violations, inconclusive=[], wall_s=time.time() - t0)
+
+
+PLANS["C14"]["stages"].insert(2, dict(name="c14-taintpipe", kind="py", func="c14_taintpipe"))
+PLANS["C14"]["rule_prefix"] += "Also the whole pipeline under memcheck with the RNG output marked undefined: tainted branches/addresses are allowed only at bit_unpack's range check inside expand_mask (constant outcome). "
